@@ -45,8 +45,13 @@ Semantic conventions (the same as the hand model's, stated in Model/C06.lean):
   `len(a) == len(b)` (numpy broadcasting is not modelled); `int array / number` yields the list of
   quotients, and ZeroDivisionError stands for numpy's non-finite result + warning when the number is 0
   and the array is not empty; `other` is an object different from `self`.
-  The numpy-scalar conversion at the top of `update` (`x = x.item()`) is the identity on exact
-  values; its presence is emitted as the flag `updateConvertsNumpy`.
+  Numpy scalars: `if <x is a numpy scalar or a 0-d array>: A else: B` (any and / or / not combination of
+  isinstance(x, np.generic | np.ndarray | a tuple of them), `x.ndim == 0`, `np.ndim(x) == 0` that is true exactly
+  for numpy scalars and 0-d arrays and cannot raise) is executed on both paths — on A `x.item()` is the same
+  exact value, now a Python number; on B `x` is known to be a Python number — and translated only if both paths
+  do the same.  A parameter of `update` that reaches arithmetic, an attribute or a list before such a conversion
+  makes the emitted flag `updateConvertsNumpy` false (the sums would be computed in a narrow numpy type).
+  Static helpers (`Result._x(…)` / `self._x(…)` of a @staticmethod) see neither `self` nor the caller's names.
 """
 import ast
 import copy
@@ -1137,8 +1142,8 @@ def gen_update(cls, codes):
         conv.append(not ex.raw_used)
     text = ('/-- `Result.update(value, total)`: the object afterwards and the exception raised, if any -/\n'
             'def update (r : Res) (o : Obs) : Res × Option PyErr :=\n  match r.ty with\n' + '\n'.join(arms) + '\n')
-    text += ('\n/-- `update` converts numpy scalars / 0-d arrays given as `value` and `total` to Python numbers\n'
-             '    before anything else (`x = x.item()`), so the sums are not computed in a narrow numpy type -/\n'
+    text += ('\n/-- `value` and `total` are converted to Python numbers (`x.item()` for numpy scalars / 0-d arrays)\n'
+             '    before they reach arithmetic, an attribute or a list: no sum is computed in a narrow numpy type -/\n'
              'def updateConvertsNumpy : Bool := %s\n' % ('true' if all(conv) else 'false'))
     return text
 
